@@ -1,60 +1,22 @@
 import JunoModel.C15.ProofsBatch
-/-! Iterators: db/memory's `curInd` arithmetic against the positions of the contract; bounds; scans. -/
+/-! Iterators: db/memory's `curInd` arithmetic against the positions of the contract; bounds. -/
 namespace Juno.C15
 
 /-! ### bounds -/
 
-theorem memBound_eq_specBound (cfg : Cfg) (p : Key) (u : Bool) (k : Key)
-    (hok : iterArgsOK cfg p u = true) : memBound cfg p u k = specBound p u k := by
-  have hspec := hasPrefix_iff_range p k
-  unfold memBound specBound
-  unfold iterArgsOK at hok
+theorem memBound_eq_specBound (p : Key) (u : Bool) (k : Key) : memBound p u k = specBound p u k := by
+  unfold memBound specBound engineBound
   cases u
-  · -- no upper bound: the code filters by prefix, the contract by lower bound
-    simp only [Bool.false_eq_true, if_false, Bool.not_false, Bool.true_or, Bool.and_true]
-    cases hl : cfg.lowerBoundFix
-    · have hp : p = [] := by simpa [hl] using hok
-      subst hp
-      simp [lexLe_nil, hasPrefix_nil]
-    · simp
-  · simp only [if_true, Bool.not_true, Bool.false_or]
-    cases hub : upperBound p with
-    | some w =>
-      simp only [hub] at hspec
-      simp only [Option.isNone_some, Bool.and_false, Bool.false_or, Option.getD_some]
-      cases hl : cfg.lowerBoundFix
-      · simp only [Bool.false_eq_true, if_false]
-        cases hp : hasPrefix k p
-        · cases h1 : lexLe p k
-          · rfl
-          · cases h2 : lexLt k w
-            · rfl
-            · have := hspec.mpr ⟨h1, h2⟩
-              simp [hp] at this
-        · have := hspec.mp hp
-          simp [this.1, this.2]
-      · simp
-    | none =>
-      simp only [hub] at hspec
-      have hn : cfg.nilUbFix = true := by simpa [hub] using hok
-      simp only [hn, Option.isNone_none, Bool.and_self, Bool.true_or, Bool.and_true]
-      cases hl : cfg.lowerBoundFix
-      · simp only [Bool.false_eq_true, if_false]
-        cases hp : hasPrefix k p
-        · cases h1 : lexLe p k
-          · rfl
-          · have := hspec.mpr ⟨h1, trivial⟩
-            simp [hp] at this
-        · have := hspec.mp hp
-          simp [this.1]
-      · simp
+  · simp
+  · simp only [if_true]
+    cases upperBound p <;> simp
 
-theorem mk_keys_eq (cfg : Cfg) (d : KV) (p : Key) (u : Bool) (hok : iterArgsOK cfg p u = true) :
-    (MIter.mk' cfg d p u).keys = (specImpl.imk d p u).keys := by
+theorem mk_keys_eq (d : KV) (p : Key) (u : Bool) :
+    (MIter.mk' d p u).keys = (specImpl.imk d p u).keys := by
   simp only [MIter.mk', specImpl]
   apply List.filter_congr
   intro x _
-  exact memBound_eq_specBound cfg p u x.1 hok
+  exact memBound_eq_specBound p u x.1
 
 /-! ### positions -/
 
@@ -67,9 +29,8 @@ def RI (mi : MIter) (si : SIter) : Prop :=
   | .at i => mi.cur = (i : Int) ∧ i < si.keys.length ∧ mi.positioned = true
   | .after => mi.cur = (si.keys.length : Int) ∧ mi.positioned = true
 
-theorem RI_mk (cfg : Cfg) (d : KV) (p : Key) (u : Bool) (hok : iterArgsOK cfg p u = true) :
-    RI (MIter.mk' cfg d p u) (specImpl.imk d p u) := by
-  refine ⟨mk_keys_eq cfg d p u hok, ?_⟩
+theorem RI_mk (d : KV) (p : Key) (u : Bool) : RI (MIter.mk' d p u) (specImpl.imk d p u) := by
+  refine ⟨mk_keys_eq d p u, ?_⟩
   simp [specImpl, MIter.mk']
 
 theorem RI_cur {mi : MIter} {si : SIter} (h : RI mi si) : mi.kv = si.cur := by
@@ -129,16 +90,21 @@ theorem seek_sim {mi : MIter} {si : SIter} (h : RI mi si) (t : Key) :
   simp only [Bool.and_eq_true, decide_eq_true_eq]
   omega
 
-theorem next_keys (cfg : Cfg) (mi : MIter) : (mi.next cfg).1.keys = mi.keys := rfl
+theorem next_keys (mi : MIter) : mi.next.1.keys = mi.keys := rfl
 
 theorem snext_keys (si : SIter) : si.next.keys = si.keys := by
   unfold SIter.next SIter.first
   cases si.pos <;> rfl
 
-theorem next_sim (cfg : Cfg) {mi : MIter} {si : SIter} (h : RI mi si)
-    (hc : cfg.nextClamp = true ∨ si.pos ≠ .after) :
-    RI (mi.next cfg).1 si.next ∧ (mi.next cfg).2 = si.next.cur.isSome := by
-  have hR : RI (mi.next cfg).1 si.next := by
+theorem sprev_keys (si : SIter) : si.prev.keys = si.keys := by
+  unfold SIter.prev SIter.first SIter.last
+  cases si.pos with
+  | «at» i => cases i <;> rfl
+  | _ => rfl
+
+theorem next_sim {mi : MIter} {si : SIter} (h : RI mi si) :
+    RI mi.next.1 si.next ∧ mi.next.2 = si.next.cur.isSome := by
+  have hR : RI mi.next.1 si.next := by
     obtain ⟨hk, hp⟩ := h
     refine ⟨by rw [next_keys, snext_keys, hk], ?_⟩
     cases hpos : si.pos with
@@ -161,43 +127,36 @@ theorem next_sim (cfg : Cfg) {mi : MIter} {si : SIter} (h : RI mi si)
     | «at» i =>
       simp only [hpos] at hp
       have h2 : ((i : Int) < (si.keys.length : Int)) := by omega
-      simp only [MIter.next, SIter.next, hpos, hp.1, hk, h2, decide_true, Bool.not_true, Bool.and_false,
-        Bool.false_eq_true, if_false]
+      simp only [MIter.next, SIter.next, hpos, hp.1, hk, h2, if_true]
       by_cases hn : i + 1 < si.keys.length
       · simp [hn]
       · have : i + 1 = si.keys.length := by omega
         simp [hn]; omega
     | after =>
       simp only [hpos] at hp
-      rcases hc with hc | hc
-      · simp [MIter.next, SIter.next, hpos, hp.1, hk, hc]
-      · exact absurd hpos hc
+      simp [MIter.next, SIter.next, hpos, hp.1, hk]
   refine ⟨hR, ?_⟩
   rw [← RI_cur hR, ← valid_eq_kv_isSome]
   rfl
 
-theorem prev_sim (cfg : Cfg) {mi : MIter} {si : SIter} (h : RI mi si)
-    (hc : cfg.prevFix = true ∨ si.pos ≠ .before) :
-    RI (mi.prev cfg).1 si.prev ∧ (mi.prev cfg).2 = si.prev.cur.isSome := by
+theorem prev_sim {mi : MIter} {si : SIter} (h : RI mi si) :
+    RI mi.prev.1 si.prev ∧ mi.prev.2 = si.prev.cur.isSome := by
   have hf := first_sim h
   obtain ⟨hk, hp⟩ := h
   cases hpos : si.pos with
   | unpos =>
     simp only [hpos] at hp
-    have e1 : mi.prev cfg = mi.first := by
-      cases hx : cfg.prevFix <;> simp [MIter.prev, hx, hp.1, hp.2]
+    have e1 : mi.prev = mi.first := by simp [MIter.prev, hp.2]
     have e2 : si.prev = si.first := by simp [SIter.prev, hpos]
     rw [e1, e2]; exact hf
   | before =>
     simp only [hpos] at hp
-    rcases hc with hc | hc
-    · have e2 : si.prev = si := by simp [SIter.prev, hpos]
-      rw [e2]
-      simp only [MIter.prev, hc, if_true, hp.2, Bool.not_true, Bool.false_eq_true, if_false, hp.1]
-      refine ⟨⟨hk, ?_⟩, ?_⟩
-      · simp [hpos, hp.2]
-      · simp [SIter.cur, hpos]
-    · exact absurd hpos hc
+    have e2 : si.prev = si := by simp [SIter.prev, hpos]
+    rw [e2]
+    simp only [MIter.prev, hp.2, Bool.not_true, Bool.false_eq_true, if_false, hp.1]
+    refine ⟨⟨hk, ?_⟩, ?_⟩
+    · simp [hpos, hp.2]
+    · simp [SIter.cur, hpos]
   | «at» i =>
     simp only [hpos] at hp
     cases i with
@@ -205,43 +164,37 @@ theorem prev_sim (cfg : Cfg) {mi : MIter} {si : SIter} (h : RI mi si)
       have e2 : si.prev = { si with pos := .before } := by simp [SIter.prev, hpos]
       rw [e2]
       refine ⟨⟨?_, ?_⟩, ?_⟩
-      · cases hx : cfg.prevFix <;> simp [MIter.prev, hx, hp.1, hp.2.2, hk]
-      · cases hx : cfg.prevFix <;> simp [MIter.prev, hx, hp.1, hp.2.2]
-      · cases hx : cfg.prevFix <;> simp [MIter.prev, hx, hp.1, hp.2.2, SIter.cur]
+      · simp [MIter.prev, hp.1, hp.2.2, hk]
+      · simp [MIter.prev, hp.1, hp.2.2]
+      · simp [MIter.prev, hp.1, hp.2.2, SIter.cur]
     | succ j =>
       have e2 : si.prev = { si with pos := .at j } := by simp [SIter.prev, hpos]
       rw [e2]
       have hj : j < si.keys.length := by omega
       have hne : ¬ ((j : Int) + 1 ≤ 0) := by omega
-      have hne0 : ¬ ((j : Int) + 1 = 0) := by omega
-      have hne1 : ¬ ((j : Int) + 1 = -1) := by omega
       refine ⟨⟨?_, ?_⟩, ?_⟩
-      · cases hx : cfg.prevFix <;> simp [MIter.prev, hx, hp.1, hp.2.2, hk, hne, hne0, hne1]
-      · cases hx : cfg.prevFix <;> simp [MIter.prev, hx, hp.1, hp.2.2, hne, hne0, hne1, hj]
-      · cases hx : cfg.prevFix <;>
-          simp [MIter.prev, hx, hp.1, hp.2.2, hne, hne0, hne1, SIter.cur, List.getElem?_eq_getElem hj]
+      · simp [MIter.prev, hp.1, hp.2.2, hk, hne]
+      · simp [MIter.prev, hp.1, hp.2.2, hne, hj]
+      · simp [MIter.prev, hp.1, hp.2.2, hne, SIter.cur, List.getElem?_eq_getElem hj]
   | after =>
     simp only [hpos] at hp
     by_cases hn : 0 < si.keys.length
-    · have e2 : si.prev = { si with pos := .at (si.keys.length - 1) } := by simp [SIter.prev, hpos, hn]
+    · have e2 : si.prev = { si with pos := .at (si.keys.length - 1) } := by simp [SIter.prev, SIter.last, hpos, hn]
       rw [e2]
       have hj : si.keys.length - 1 < si.keys.length := by omega
       have hne : ¬ ((si.keys.length : Int) ≤ 0) := by omega
-      have hne0 : ¬ ((si.keys.length : Int) = 0) := by omega
-      have hne1 : ¬ ((si.keys.length : Int) = -1) := by omega
       have hcast : (si.keys.length : Int) - 1 = ((si.keys.length - 1 : Nat) : Int) := by omega
       have hnil : ¬ si.keys = [] := by intro e; simp [e] at hn
       refine ⟨⟨?_, ?_⟩, ?_⟩
-      · cases hx : cfg.prevFix <;> simp [MIter.prev, hx, hp.1, hp.2, hk, hne, hne0, hne1, hnil]
-      · cases hx : cfg.prevFix <;> simp [MIter.prev, hx, hp.1, hp.2, hne, hne0, hne1, hj, hcast, hnil]
-      · cases hx : cfg.prevFix <;>
-          simp [MIter.prev, hx, hp.1, hp.2, hne, hne0, hne1, SIter.cur, List.getElem?_eq_getElem hj, hnil]
+      · simp [MIter.prev, hp.1, hp.2, hk, hne, hnil]
+      · simp [MIter.prev, hp.1, hp.2, hne, hj, hcast, hnil]
+      · simp [MIter.prev, hp.1, hp.2, hne, SIter.cur, List.getElem?_eq_getElem hj, hnil]
     · have h0 : si.keys.length = 0 := by omega
-      have e2 : si.prev = { si with pos := .before } := by simp [SIter.prev, hpos, h0]
+      have e2 : si.prev = { si with pos := .before } := by simp [SIter.prev, SIter.last, hpos, h0]
       rw [e2]
       refine ⟨⟨?_, ?_⟩, ?_⟩
-      · cases hx : cfg.prevFix <;> simp [MIter.prev, hx, hp.1, hp.2, hk, h0]
-      · cases hx : cfg.prevFix <;> simp [MIter.prev, hx, hp.1, hp.2, h0]
-      · cases hx : cfg.prevFix <;> simp [MIter.prev, hx, hp.1, hp.2, h0, SIter.cur]
+      · simp [MIter.prev, hp.1, hp.2, hk, h0]
+      · simp [MIter.prev, hp.1, hp.2, h0]
+      · simp [MIter.prev, hp.1, hp.2, h0, SIter.cur]
 
 end Juno.C15
